@@ -237,6 +237,8 @@ func loadSites(path string) {
 func drawConfig(t *simrt.Tape, pctSteps int) simrt.Config {
 	cfg := simrt.Config{}
 	cfg.GOMAXPROCS = []int{1, 2, 4, 16}[t.Choose(simrt.KPolicy, 4)]
+	// the CPU count is independent of GOMAXPROCS (0 = equal)
+	cfg.NumCPU = []int{0, 16, 1, 64}[t.Choose(simrt.KPolicy, 4)]
 	// value 0 = FIFO so that the zero tape is the boring baseline
 	switch t.Choose(simrt.KPolicy, 8) {
 	case 0:
